@@ -1,6 +1,6 @@
 """C11 - clients sharing one core package keep working as more are generated.
 
-(A) SharedCore.tla model-checked by TLC (3 clients, every subset of {404,409,500}, force, core depth 0..3,
+(A) SharedCore.tla model-checked by TLC (3 clients, every subset of {404,409,500}, force, core depth 0..4,
     histories <= 4): mechanism invariants must hold; `Served` / `NeverShrinksNeeded` are evaluated per core depth
     with allow_violation - a counterexample is the specification-level statement of a defect (-> findings).
 (B) Gen_SharedCore.tla: TLC dumps the TREE of all histories (every node = history + the specification's state).
@@ -25,7 +25,7 @@ from .w_sharedcore import packages
 LEVEL = "model_checking"
 
 NAME2CODE = {"NotFoundError": 404, "ConflictError": 409, "InternalServerError": 500}
-PRIMARY_LAYOUT = {0: "sib", 1: "api", 2: "sib", 3: "sib"}
+PRIMARY_LAYOUT = {0: "sib", 1: "api", 2: "sib", 3: "sib", 4: "sib"}
 OTHER = {"sib": "api", "api": "sib"}
 
 
@@ -36,14 +36,14 @@ def families(tier: str) -> list[dict[str, Any]]:
         return [
             {"name": "A", "clients": ["c1", "c2"], "codesets": [[404], [404, 409], [500]], "depths": [0, 1, 2, 3], "maxlen": 3,
              "canon": False, "layout": PRIMARY_LAYOUT, "maxlen_at": {0: 2}, "split": 1},
-            {"name": "B", "clients": ["c1", "c2"], "codesets": [[], [404], [409, 500]], "depths": [0, 1, 2, 3], "maxlen": 2,
-             "canon": False, "layout": {d: OTHER[PRIMARY_LAYOUT[d]] for d in range(4)}, "maxlen_at": {}, "split": 1},
+            {"name": "B", "clients": ["c1", "c2"], "codesets": [[], [404], [409, 500]], "depths": [0, 1, 2, 3, 4], "maxlen": 2,
+             "canon": False, "layout": {d: OTHER[PRIMARY_LAYOUT[d]] for d in range(5)}, "maxlen_at": {}, "split": 1},
         ]
     return [
         {"name": "A", "clients": ["c1", "c2", "c3"], "codesets": [[404], [404, 409], [500]], "depths": [0, 1, 2, 3], "maxlen": 4,
          "canon": True, "layout": PRIMARY_LAYOUT, "maxlen_at": {0: 3, 2: 3}, "split": 2},
-        {"name": "B", "clients": ["c1", "c2"], "codesets": [[], [404], [409, 500]], "depths": [0, 1, 2, 3], "maxlen": 3,
-         "canon": False, "layout": {d: OTHER[PRIMARY_LAYOUT[d]] for d in range(4)}, "maxlen_at": {}, "split": 1},
+        {"name": "B", "clients": ["c1", "c2"], "codesets": [[], [404], [409, 500]], "depths": [0, 1, 2, 3, 4], "maxlen": 3,
+         "canon": False, "layout": {d: OTHER[PRIMARY_LAYOUT[d]] for d in range(5)}, "maxlen_at": {}, "split": 1},
     ]
 
 
@@ -51,7 +51,7 @@ def families(tier: str) -> list[dict[str, Any]]:
 # (A) design model checking
 
 
-DESIGN_DEPTHS = (0, 1, 2, 3)
+DESIGN_DEPTHS = (0, 1, 2, 3, 4)
 
 
 def mc_module() -> str:
@@ -391,7 +391,7 @@ def replay_and_judge(chk: Check, fams: list[tuple[dict, list[dict]]], spawn_ever
 
 def run(chk: Check) -> None:
     chk.cov["rule"] = (
-        "TLC model-checks SharedCore.tla (3 clients x every subset of {404,409,500} x force x core depth 0..3, histories <=4) and "
+        "TLC model-checks SharedCore.tla (3 clients x every subset of {404,409,500} x force x core depth 0..4, histories <=4) and "
         "enumerates the history tree (quick: every history <=3 over 2 clients x 3 code sets x force for core depth 0..3 + the other "
         "package layout <=2 incl. the empty code set; thorough: <=4 over 3 clients up to client renaming + other layout <=3); every "
         "edge = one real generate_client call + a fresh-interpreter import of every client generated so far; non-trivial = applied step "
